@@ -133,6 +133,10 @@ def has_block_or_ifmax(seq):
 # ---------------------------------------------------------------------------
 # expected keys (property statement, written out)
 # ---------------------------------------------------------------------------
+class SubActionSelection(ActionSelection):
+    """what a user writes to add convenience methods: behaves like its base class in every respect"""
+
+
 def expected_keys(names):
     out = []
     for i, n in enumerate(names):
@@ -265,7 +269,7 @@ class Runner:
     # -- with block --------------------------------------------------------
     def block(self, bid, body, stmt):
         if bid not in self.blocks:
-            self.blocks[bid] = ActionSelection()
+            self.blocks[bid] = (SubActionSelection if bid % 2 else ActionSelection)()   # a user subclass is a block too
             self.decl[bid] = []
             self.unclaimed[bid] = []
         blk = self.blocks[bid]
